@@ -124,7 +124,7 @@ func Digest(r io.Reader, hashFunc crypto.Hash) (*CabinetDigest, error) {
 	}
 	_ = binary.Write(dw, binary.LittleEndian, sb)
 	// save the updated header for writing out later
-	patched := bytes.NewBuffer(make([]byte, 0, outHeader.OffsetFiles))
+	patched := new(bytes.Buffer)
 	_ = binary.Write(patched, binary.LittleEndian, outHeader)
 	_ = binary.Write(patched, binary.LittleEndian, outReserveHeader)
 	_ = binary.Write(patched, binary.LittleEndian, outSigHeader)
